@@ -39,6 +39,6 @@ def run(ctx):
                     "2-3 consecutive searches re-using one ParameterList object", chunk=800, isolated=True)
     par = []
     for p in procs[1:]:
-        par += B.search_programs_from_tables(tables, MODES, [p], ["1", "q", "big"], rng)
+        par += B.search_programs_from_tables(tables[:100], MODES, [p], ["1", "q", "big"], rng)
     _batch.validate(ctx, par, f"the same score tables x 8 modes x processes {procs[1:]}: every run must match the specification, "
                               "hence serial = parallel", chunk=800, isolated=True)
